@@ -254,7 +254,8 @@ def run(ctx):
             if bad_eff:
                 report("C13:successful-operation-not-visible-on-every-did", f"event {k}: {bad_eff}", w)
             # P4: a completed operation leaves no change record of its own behind
-            if kind in ("plain", "quiet", "now") and o[1] != obs[k - 1][1]:
+            # (every world kind: the records a completed operation deletes are its OWN — those of a stopped operation stay for the sweep)
+            if op.get("fault") != "sweepat" and o[1] != obs[k - 1][1]:
                 report("C13:change-records-left-by-completed-operation", f"event {k} ({kd}): {obs[k - 1][1]} change records before, {o[1]} after", w)
         if kind == "req":
             # request layer: Create with an option list, AddVerificationMethod with a key-agreement usage, PreferredOrder
@@ -623,7 +624,7 @@ REQUIRED_DEEP = ["uniform_versions", "versions_consecutive", "versions_consecuti
                  # round 3 (Props/C13Ctx.lean): request context, subject look-up
                  "fact_request_context_only_reaches_commit", "fact_subject_lookup_is_equality", "commit_loop_ignores_context",
                  "cancelled_request_changes_nothing", "cancelled_request_reach", "web_commit_failing_on_dead_context_breaks_all_or_nothing",
-                 "find_services_all_dids_or_none", "find_services_without_type_finds_nothing", "lookup_is_exact", "lookup_by_like_merges_subjects", "other_subjects_untouched", "other_subjects_untouched_by_cancelled_request"]
+                 "find_services_all_dids_or_none", "find_services_without_type_finds_nothing", "lookup_is_exact", "lookup_by_like_merges_subjects", "other_subjects_untouched", "other_subjects_untouched_by_cancelled_request", "cancelled_and_failed_request_restores"]
 
 
 def pref_of(s):
